@@ -13,8 +13,10 @@ import PpciVerif.Spec.SysV
   frame <used regs|-> <stacksize>         → ok <model prologue> <model epilogue>
   execframe <used|-> <stacksize> <rsp0> <prologue> <epilogue>
         runs the GIVEN lists on the stack machine around an adversarial body → ok held | ok viol:<what>
-  call <sig> <rvtype|->                   → ok <pre> <post> <stack_size> | err NotImplementedError
-  execcall <sig> <rvtype|-> <pre> <post>  → ok held | ok viol:<what>   (psABI view at the call instruction)
+  call <sig> <rvtype|-> <d|i>             → ok <pre> <call:ids | callr:98:ids> <post> <stack_size> | err NotImplementedError
+        (d = direct call to a label, i = indirect call through a register; ids = sorted clobber ids joined by `.`, `none` if empty)
+  execcall <sig> <rvtype|-> <pre> <ids> <post>  → ok held | ok viol:<what>   (psABI view at the call instruction;
+        the callee destroys everything the psABI allows; the call instruction's clobber ids must cover that)
   enter <sig>                             → ok <list> | err NotImplementedError
   execenter <sig> <list>                  → ok held | ok viol:<what>   (each argument read from its psABI location)
 -/
@@ -94,7 +96,18 @@ def clobberRegs (s : MState) (rs : List Nat) : MState :=
 def clobberMem (s : MState) (lo hi : Int) : MState :=
   ⟨s.reg, fun a => if lo ≤ a ∧ a < hi then 888000 + a else s.mem a⟩
 
-def callerSavedIds : List Nat := Spec.SysV.callerSaved.map GPR.num ++ (List.range 16).map (· + 16)
+def callerSavedIds : List Nat := Spec.SysV.callerSaved.map GPR.num ++ Spec.SysV.callerSavedXmm.map (16 + ·)
+
+def insertSorted (x : Nat) : List Nat → List Nat
+  | [] => [x]
+  | y :: ys => if x ≤ y then x :: y :: ys else y :: insertSorted x ys
+def sortNat (l : List Nat) : List Nat := l.foldr insertSorted []
+
+def showIds (l : List Nat) : String :=
+  if l.isEmpty then "none" else ".".intercalate ((sortNat l).map toString)
+
+def ids? (s : String) : Option (List Nat) :=
+  if s == "none" then some [] else (s.splitOn ".").mapM (·.toNat?)
 
 def firstSome : List (Option String) → Option String
   | [] => none
@@ -127,7 +140,7 @@ def valueAt (s : MState) (callRsp : Int) : Spec.SysV.Loc → Int
   -- the callee's rbp after `call; push rbp; mov rbp, rsp` is callRsp - 16
   | .mem off => s.mem (callRsp - 16 + off)
 
-def execCall (sig : List Ty) (rv : Option Ty) (pre post : List Instr) : String :=
+def execCall (sig : List Ty) (rv : Option Ty) (pre : List Instr) (clobbers : List Nat) (post : List Instr) : String :=
   let rsp0 : Int := 80000
   let s0i := init rsp0
   let s0 : MState := ⟨fun k => if 100 ≤ k ∧ k < 100 + sig.length then 7000 + (k : Int) else s0i.reg k, s0i.mem⟩
@@ -142,8 +155,10 @@ def execCall (sig : List Ty) (rv : Option Ty) (pre post : List Instr) : String :
                           then 4242 else c2.reg k, c2.mem⟩
     | none => c2
   let s3 := run post s2
+  let missing := callerSavedIds.filter (fun r => !clobbers.contains r)
   let v := firstSome ([
     if s1.reg 4 % 16 ≠ 0 then some s!"misaligned-at-call:{rsp0 - s1.reg 4}" else none] ++ argv ++ [
+    if !missing.isEmpty then some s!"call-missing-clobbers:{showIds missing}" else none,
     if s3.reg 4 ≠ rsp0 then some s!"rsp-not-restored:{s3.reg 4 - rsp0}" else none,
     if rv.isSome ∧ s3.reg rvVreg ≠ 4242 then some "result-not-read-from-abi-location" else none])
   match v with
@@ -178,14 +193,16 @@ def step' (line : String) : String :=
   | ["execframe", u, n, r, p, e] => match list? reg? u, n.toNat?, r.toInt?, list? instr? p, list? instr? e with
       | some used, some n, some r, some p, some e => execFrame used n r p e
       | _, _, _, _, _ => "bad-op"
-  | ["call", s, t] => match sig? s, optTy? t with
-      | some sig, some rv => match genCall sig rv with
-        | .ok c => s!"ok {showInstrs c.pre} {showInstrs c.post} {c.stackSize}"
+  | ["call", s, t, k] => match sig? s, optTy? t, (if k == "d" then some false else if k == "i" then some true else none) with
+      | some sig, some rv, some ind => match genCall sig rv ind with
+        | .ok c =>
+          let ci := if c.indirect then s!"callr:{fpVreg}:{showIds c.clobbers}" else s!"call:{showIds c.clobbers}"
+          s!"ok {showInstrs c.pre} {ci} {showInstrs c.post} {c.stackSize}"
         | .error e => "err " ++ e.name
-      | _, _ => "bad-op"
-  | ["execcall", s, t, p, q] => match sig? s, optTy? t, list? instr? p, list? instr? q with
-      | some sig, some rv, some p, some q => execCall sig rv p q
-      | _, _, _, _ => "bad-op"
+      | _, _, _ => "bad-op"
+  | ["execcall", s, t, p, cl, q] => match sig? s, optTy? t, list? instr? p, ids? cl, list? instr? q with
+      | some sig, some rv, some p, some cl, some q => execCall sig rv p cl q
+      | _, _, _, _, _ => "bad-op"
   | ["enter", s] => match sig? s with
       | some sig => match genFunctionEnter sig with
         | .ok is => "ok " ++ showInstrs is
